@@ -124,6 +124,13 @@ def run(tier, seed):
             chk.violation('BOUNDED:c09/luafmt changed, dropped or failed on code', {'witness': nbad[:4]}, True)
     chk.trust('pyvc VC generator + z3 (cursor helper, end-of-input region); syntactic scan of the handlers; reference grammar / tokenizer (bounded)')
     chk.assume('tokens are abstract values with uninterpreted trivia predicates; token codes are opaque')
+    chk.assume('Token.matches is an uninterpreted relation between a token and a pattern; a trivia token does not match the symbol pattern ";" '
+               '(Token.matches compares classes) -- precondition of the _get_semis contract')
+    chk.assume('_get_semis: the list of byte strings that is only appended to and finally joined is represented by its concatenation '
+               '(join(l + [x]) == join(l) + x); _get_text / _get_name: the precondition "the first non-trivia token at the cursor exists and '
+               'matches" is what the handlers supply (each asks for the token its node was parsed with) -- that correspondence is the '
+               'parser-side C08 obligations plus the bounded runs, not a discharged obligation')
+    chk.assume('LuaFormatterWriter._get_code_for_spaces: re.sub results are arbitrary byte strings (only the cursor movement is under contract)')
     chk.assume('formatter success on every valid program and token identity of the whole output need an induction over grammar derivations that is '
                'not attempted: that part is the bounded enumeration (never counted as proved)')
     return chk.finish(explanation='partial proof (cursor helper contract, no-silent-loss region, emission discipline) + bounded enumeration of '
